@@ -57,34 +57,20 @@ Proof.
 Qed.
 
 Lemma eval_filter_val : forall nv r f,
-    filter_supported f = true ->
     (forall x, In x (filter_vars f) -> bound (KV x) r = true) -> eval_filter nv r f = filter_ok nv (row_val r) f.
 Proof.
-  intros nv r [x op z | x op y] HF H; cbn in *.
+  intros nv r [x op z | x op y] H; cbn in *.
   - destruct (bound_true _ _ (H x (or_introl eq_refl))) as [l El]. unfold row_val. rewrite El. reflexivity.
   - destruct (bound_true _ _ (H x (or_introl eq_refl))) as [l El].
     destruct (bound_true _ _ (H y (or_intror (or_introl eq_refl)))) as [m Em]. unfold row_val. rewrite El, Em.
-    destruct op; try discriminate; reflexivity.
+    destruct op; reflexivity.
 Qed.
-
-Definition filters_supported (fs : list fcond) : bool := forallb filter_supported fs.
 
 Lemma eval_filters_val : forall nv r fs,
-    filters_supported fs = true ->
     (forall x, In x (flat_map filter_vars fs) -> bound (KV x) r = true) -> eval_filters nv r fs = filters_ok nv (row_val r) fs.
 Proof.
-  intros nv r fs. unfold eval_filters, filters_ok, filters_supported. induction fs as [|f fs IH]; intros HF H; cbn; [reflexivity |].
-  cbn in H, HF. apply andb_true_iff in HF. destruct HF as [HF1 HF2].
-  rewrite eval_filter_val, IH; auto; intros x Hx; apply H; rewrite in_app_iff; auto.
-Qed.
-
-Lemma varcmp_false : forall P, known_C05_varcmp P = false -> forall r, In r P -> filters_supported (filt r) = true.
-Proof.
-  intros P H r Hr. unfold filters_supported. apply forallb_forall. intros f Hf.
-  destruct (filter_supported f) eqn:E; [reflexivity |]. exfalso.
-  assert (X : known_C05_varcmp P = true).
-  { unfold known_C05_varcmp. apply existsb_exists. exists r. split; [exact Hr |]. apply existsb_exists. exists f. rewrite E. auto. }
-  congruence.
+  intros nv r fs. unfold eval_filters, filters_ok. induction fs as [|f fs IH]; intros H; cbn; [reflexivity |].
+  cbn in H. rewrite eval_filter_val, IH; auto; intros x Hx; apply H; rewrite in_app_iff; auto.
 Qed.
 
 (* ---- conclude ------------------------------------------------------------------------------------ *)
@@ -124,23 +110,22 @@ Qed.
 
 (* rows that represent exactly the solutions of [done] fire exactly the instances of the conclusions *)
 Lemma rows_fire : forall nv r rows done f,
-    filters_supported (filt r) = true ->
     exactM rows done ->
     (forall c x, In c (concl r) -> In x (atom_vars c) -> In x (atoms_vars (map fst done))) ->
     (forall x, In x (flat_map filter_vars (filt r)) -> In x (atoms_vars (map fst done))) ->
     ((exists row c, In row rows /\ eval_filters nv row (filt r) = true /\ In c (concl r) /\ f = row_inst row c) <->
      (exists sg c, psol done sg /\ filters_ok nv sg (filt r) = true /\ In c (concl r) /\ f = inst sg c)).
 Proof.
-  intros nv r rows done f HFS [Hh OK D S Cm] RC RF. split.
+  intros nv r rows done f [Hh OK D S Cm] RC RF. split.
   - intros [row [c [Hr [Hf [Hc ->]]]]]. exists (row_val row), c.
     split; [apply (S row _ Hr (ragrees_row_val row)) |]. split; [| split; [exact Hc | apply row_inst_val]].
-    rewrite <- eval_filters_val; [exact Hf | exact HFS |]. intros x Hx. apply (D row x Hr). apply RF. exact Hx.
+    rewrite <- eval_filters_val; [exact Hf |]. intros x Hx. apply (D row x Hr). apply RF. exact Hx.
   - intros [sg [c [Hs [Hf [Hc ->]]]]]. destruct (Cm sg Hs) as [row [Hr A]].
     assert (EQ : forall x, In x (atoms_vars (map fst done)) -> row_val row x = sg x).
     { intros x Hx. apply (D row x Hr) in Hx. destruct (bound_true _ _ Hx) as [v Ev].
       unfold row_val. rewrite Ev. symmetry. apply A. exact Ev. }
     exists row, c. split; [exact Hr |]. split; [| split; [exact Hc |]].
-    + rewrite eval_filters_val; [| exact HFS | intros x Hx; apply (D row x Hr); apply RF; exact Hx].
+    + rewrite eval_filters_val by (intros x Hx; apply (D row x Hr); apply RF; exact Hx).
       rewrite (filters_ok_ext nv (row_val row) sg); [exact Hf |]. intros x Hx. apply EQ. apply RF. exact Hx.
     + rewrite row_inst_val. symmetry. apply inst_ext. intros x Hx. apply EQ. apply (RC c x Hc Hx).
 Qed.
@@ -178,22 +163,22 @@ Proof.
 Qed.
 
 Theorem naive_round_spec : forall nv P all f,
-    safe P = true -> known_C05_varcmp P = false ->
+    safe P = true ->
     (In f (snd (naive_round nv P tt all)) <-> one_step nv P all f /\ ~ In f all).
 Proof.
-  intros nv P all f HS HV. unfold naive_round. cbn [snd].
+  intros nv P all f HS. unfold naive_round. cbn [snd].
   rewrite (fold_conclude_In nv all (fun r => naive_solutions r all) P [] f). cbn [In]. split.
   - intros [[] | [Hk [r [row [c [Hr [Hrow [Hf [Hc ->]]]]]]]]]. split; [| exact Hk].
     destruct (safe_rule_spec r (safe_In P r HS Hr)) as [Hne [RC RF]].
     pose proof (naive_solutions_exact r all Hne) as EX.
-    destruct (proj1 (rows_fire nv r _ _ (row_inst row c) (varcmp_false P HV r Hr) EX
+    destruct (proj1 (rows_fire nv r _ _ (row_inst row c) EX
                       ltac:(rewrite map_fst_with_facts; exact RC) ltac:(rewrite map_fst_with_facts; exact RF)))
       as [sg [c' [Hs [Hf' [Hc' E]]]]]; [exists row, c; auto |].
     exists r, sg, c'. split; [exact Hr |]. split; [apply psol_with_facts; exact Hs | auto].
   - intros [[r [sg [c [Hr [Hp [Hf [Hc ->]]]]]]] Hk]. right. split; [exact Hk |].
     destruct (safe_rule_spec r (safe_In P r HS Hr)) as [Hne [RC RF]].
     pose proof (naive_solutions_exact r all Hne) as EX.
-    destruct (proj2 (rows_fire nv r _ _ (inst sg c) (varcmp_false P HV r Hr) EX
+    destruct (proj2 (rows_fire nv r _ _ (inst sg c) EX
                       ltac:(rewrite map_fst_with_facts; exact RC) ltac:(rewrite map_fst_with_facts; exact RF)))
       as [row [c' [Hrow [Hf' [Hc' E]]]]].
     { exists sg, c. split; [apply psol_with_facts; exact Hp | auto]. }
@@ -232,10 +217,10 @@ Proof.
 Qed.
 
 Theorem semi_round_spec : forall nv P start all f,
-    safe P = true -> known_C05_varcmp P = false ->
+    safe P = true ->
     (In f (snd (semi_round nv P start all)) <-> delta_step nv P all (skipn start all) f /\ ~ In f all).
 Proof.
-  intros nv P start all f HS HV. unfold semi_round. cbn [snd].
+  intros nv P start all f HS. unfold semi_round. cbn [snd].
   set (delta := skipn start all).
   assert (Hdelta : forall g, In g delta -> In g all).
   { intros g Hg. rewrite <- (firstn_skipn start all). apply in_app_iff. right. exact Hg. }
@@ -251,7 +236,7 @@ Proof.
     unfold semi_solutions in Hrow. apply in_flat_map in Hrow. destruct Hrow as [i [Hi Hrow]].
     destruct (nth_error (prem r) i) as [a |] eqn:Hn; [| destruct Hrow].
     pose proof (semi_rows_exact r all delta i a Hn) as EX.
-    destruct (proj1 (rows_fire nv r _ _ (row_inst row c) (varcmp_false P HV r Hr) EX
+    destruct (proj1 (rows_fire nv r _ _ (row_inst row c) EX
                       ltac:(intros c0 x Hc0 Hx; apply (VARS r i a x Hn); apply (RC c0 x Hc0 Hx))
                       ltac:(intros x Hx; apply (VARS r i a x Hn); apply (RF x Hx))))
       as [sg [c' [Hs [Hf' [Hc' E]]]]]; [exists row, c; auto |].
@@ -266,7 +251,7 @@ Proof.
     destruct (safe_rule_spec r (safe_In P r HS Hr)) as [Hne [RC RF]].
     destruct (In_nth_error _ _ Ha) as [i Hn].
     pose proof (semi_rows_exact r all delta i a Hn) as EX.
-    destruct (proj2 (rows_fire nv r _ _ (inst sg c) (varcmp_false P HV r Hr) EX
+    destruct (proj2 (rows_fire nv r _ _ (inst sg c) EX
                       ltac:(intros c0 x Hc0 Hx; apply (VARS r i a x Hn); apply (RC c0 x Hc0 Hx))
                       ltac:(intros x Hx; apply (VARS r i a x Hn); apply (RF x Hx))))
       as [row [c' [Hrow [Hf' [Hc' E]]]]].
